@@ -144,10 +144,10 @@ def random_program(rng: random.Random) -> list[dict[str, Any]]:
     return [blk(0)]
 
 
-def run_once(prog: list[dict[str, Any]], prefix: list[int], policy: Any, target: int | None, after_idles: int = 0, after_turns: int = 0) -> dict[str, Any]:
+def run_once(prog: list[dict[str, Any]], prefix: list[int], policy: Any, target: int | None, after_idles: int = 0, after_turns: int = 0, again_after_turns: int = 0) -> dict[str, Any]:
     root = logging.getLogger()
     out: dict[str, Any] = {}
-    inj = Injector(target, after_idles, after_turns)
+    inj = Injector(target, after_idles, after_turns, again_after_turns)
 
     async def main(loop: Any) -> None:
         W: World = loop.W
